@@ -760,5 +760,5 @@ Lemma has_at_app4 buf off x y z w : has_at buf off (x ++ y ++ z ++ w) ->
 Proof. intros H. destruct (has_at_app3 _ _ _ _ _ H) as (H1 & H2 & H3). destruct (has_at_app _ _ _ _ H3) as [H4 H5]. auto. Qed.
 
 Lemma len_enc4 be n : len (enc be 4 n) = 4. Proof. apply len_enc. Qed.
-Global Hint Rewrite @len_app len_zeros len_enc4 len_enc len_sig_bytes : lens.
+Global Hint Rewrite @len_app len_zeros len_enc4 len_sig_bytes N.add_assoc : lens.
 Ltac lens := autorewrite with lens in *.
